@@ -126,6 +126,12 @@ def run(ctx):
     ctx.rule("R4", "force assembly: sign, gradient-buffer hygiene, Newton's third law scatter, padding rows untouched")
     ctx.rule("R5", "analytical core-core derivative equals the symbolic derivative of the core-core energy (6 cases)")
     ctx.rule("R6", "every element of the analytical local-frame derivative kernel is d/dr of the corresponding energy integral (27 identities)")
+    ctx.rule("R7", "back-propagated forces see the response of the density: unrolled SCF drivers write no solver state under no_grad (shared with C07-R5)")
+    ctx.rule("R8", "every molecule's gradient is built from its own state and sizes (representative-row rule, shared with C05-R1)")
+    from .c07 import check_unrolled_graph
+    check_unrolled_graph(ctx, repo.mod("seqm/seqm_functions/scf_loop.py"), "R7")
+    from .c05 import check_rep_rows
+    check_rep_rows(ctx, "R8")
     _r6_derivative_kernel(ctx, repo)
 
     # ------------------------------------------------------------------ R1
